@@ -88,6 +88,22 @@ pub fn binary(n: usize) -> Value {
     let mut rng = rng(21);
     let mut bad = vec![];
     let mut seen: std::collections::HashMap<Vec<u8>, (String, Vec<u8>)> = std::collections::HashMap::new();
+    // lengths around every power of ten up to a million, for the payload and for the type: the decimal length fields
+    // change width there
+    for e in 1..=6u32 {
+        for d in [-1i64, 0, 1] {
+            let len = (10i64.pow(e) + d) as usize;
+            for (t, p) in [("t".to_string(), vec![b'p'; len]), ("y".repeat(len), b"p".to_vec())] {
+                let packed = in_toto::verif::pae_pack(t.clone(), &p);
+                let want = [format!("DSSEv1 {} {} {} ", t.len(), t, p.len()).into_bytes(), p.clone()].concat();
+                let r = guarded(|| in_toto::verif::pae_unpack(&packed));
+                let ok = packed == want && matches!(&r, Ok(Ok((pp, tt))) if *pp == p && *tt == t);
+                if !ok && bad.len() < 5 {
+                    bad.push(json!({"length": len, "type_len": t.len(), "payload_len": p.len(), "bytes_as_specified": packed == want, "res": outcome(&r)}));
+                }
+            }
+        }
+    }
     for i in 0..n {
         let tl = rng.gen_range(0..6);
         let t: String = (0..tl).map(|_| char::from_u32(rng.gen_range(0x20u32..0x2fff)).unwrap_or('x')).collect();
